@@ -13,11 +13,18 @@ RULE = ("twin: dimension-wise density estimation (SpatiallyAdaptiveSingleDimensi
         "uniform / clustered / snapped-to-grid-lines inside (0,1)^d with pre_scaled_data=True, or raw data that the library "
         "min-max scales itself), lambda, class signs on/off, mass lumping on/off, rebalancing on/off, (lmin,lmax) in "
         "{(2,4),(2,5),(3,4),(3,5)}, with reuse_old_values False and True; the refinement decisions of both runs come from the "
-        "same scripted decision tape, so the histories are identical by construction. After EVERY evaluation the combination "
-        "scheme, the component-grid points, the matrix R, the right-hand side B, the surpluses and the combined density at 30 "
-        "points are compared. A history ends after maxsteps refinements or when the summed squared grid sizes exceed a cost "
+        "same scripted decision tape, so the histories are identical by construction. 40% of the cases are 'directed': "
+        "lmin=3,lmax=5 (grids of 105..225 points, the last-set grid >=200 so that every sa(points) takes the large "
+        "interpolation branch), default rebalancing, 3-5 steps of one-sided refinement towards a target next to a domain end "
+        "(tape modes 5/6, rarely 7), which makes the rebalancing re-level the lopsided tree so that component grids swap a "
+        "coordinate at unchanged shape between two interpolations. After EVERY evaluation the combination "
+        "scheme, the component-grid points, the matrix R, the right-hand side B, the surpluses and the combined density "
+        "sa(points) at the same 46 points (16 of them next to the domain ends) are compared between the runs, and each run's "
+        "sa(points) is compared with the reference hat basis applied to that run's own surpluses and current grid points. A history ends after maxsteps refinements or when the summed squared grid sizes exceed a cost "
         "budget. Non-trivial = some evaluation k>=1 in which the reuse run really copied an old right-hand side "
-        "(find_closest_old_B returned a key on a grid with >=200 points) while the scheme also held a grid with <200 points. "
+        "(find_closest_old_B returned a key on a grid with >=200 points) while the scheme also held a grid with <200 points, "
+        "or some component grid changed a coordinate at unchanged shape between two consecutive evaluations whose "
+        "interpolations both took the >=200 branch. "
         "paths: one grid (dimension-wise refined dyadic stripes with 150-260 interior points, or a uniform level vector "
         "with 105-381 points) + data + random surpluses; the library's small-grid and large-grid branches of "
         "calculate_B_dimension_wise / calculate_B / interpolate_points_component_grid are BOTH executed on that same grid "
@@ -31,11 +38,15 @@ ASSUMPTIONS = [
     "class signs are a numpy array of +-1 containing both signs (what test_dim_wise_run_classification passes)",
     "refinement decisions are scripted (errorOperator extension point) so that both twin runs take identical decisions; "
     "identity of scheme and grid points is nevertheless asserted after every evaluation",
-    "tolerances: R 1e-8*max|R| (a cached entry was computed at another position of the grid and the analytic formula "
-    "cancels in absolute coordinates: rounding seen 5e-11*max|R|; a wrong entry is >=1e-5*max|R| at the depths generated), "
+    "tolerances: R 1e-7*max|R| (a cached entry was computed at another position of the grid and the analytic formula "
+    "cancels in absolute coordinates, growing with the depth of one-sided refinement: rounding seen 2.3e-10*max|R|), "
     "B 1e-12 absolute (entries are means of <=80 hat products <=1; seen 2e-16), surpluses 1e-6*max|alpha| and densities "
-    "1e-6*max(1,|density|) (a backstop behind the R/B clauses: the solve amplifies the R rounding to 5e-10*max|alpha| on "
-    "the unchanged tree, while the one real defect seen gives 0.1..8 times max|alpha|); branch comparison 1e-10 (seen 2e-15)",
+    "1e-6*max(1,|density|) (a backstop behind the R/B clauses: the solve amplifies the R rounding to 5e-10*max|alpha| / "
+    "2e-9 in the density on the unchanged tree, real defects seen give 0.1..8); sa(points) vs the reference hat basis on the "
+    "run's own surpluses 1e-9*max(1,|density|) (seen 4e-15: dyadic grids); branch comparison 1e-10 (seen 2e-15)",
+    "the comparison of each run's sa(points) with its own surpluses is stronger than the statement when BOTH runs deviate "
+    "equally; it is reported under its own signatures (density/reuse-off|on-differs-from-own-surpluses) so that a deviation "
+    "of the reuse-on run alone is attributable",
     "surpluses/densities of an evaluation are compared only on component grids whose linear system (R,B) agreed; a grid "
     "whose B differs is reported through the B clause (one root cause -> one signature)",
     "the paths sub-check replaces the local constant 200 in a harness-side copy of the library function's code object; "
@@ -43,9 +54,10 @@ ASSUMPTIONS = [
 ]
 
 THRESHOLD = 200
-TOL_R = 1e-8
+TOL_R = 1e-7
 TOL_B = 1e-12
 TOL_S = 1e-6
+TOL_OWN = 1e-9
 TOL_PATH = 1e-10
 Q = drive.Q
 
@@ -118,7 +130,12 @@ def make_data(case):
         signs[0], signs[1] = 1.0, -1.0
     pts = rng.uniform(0.01, 0.99, size=(24, dim))
     dy = rng.integers(1, 16, size=(6, dim)) / 16.0
-    return x, pre_scaled, signs, np.vstack([pts, dy])
+    ends = rng.uniform(0.01, 0.99, size=(16, dim))      # one coordinate close to a domain end (where one-sided
+    for j in range(len(ends)):                          # refinement and the rebalancing rotations take place)
+        d = j % dim
+        u = rng.uniform(0.0, 0.13)
+        ends[j, d] = u if (j // dim) % 2 == 0 else 1.0 - u
+    return x, pre_scaled, signs, np.vstack([pts, dy, ends])
 
 
 # ------------------------------------------------------------------------------------------------------------
@@ -180,6 +197,8 @@ def run_single(case, reuse, corrupt=None):
 
     def ev():
         cost = sum(_grid_size(sa, cg.levelvector) ** 2 for cg in sa.scheme)
+        if case["masslumping"]:
+            cost //= 5                      # only the diagonal of R is built: measured ~5x cheaper
         if state["evals"] >= 1 and state["cost"] + cost > case["budget"]:
             raise drive.StopHistory()
         state["cost"] += cost
@@ -188,11 +207,19 @@ def run_single(case, reuse, corrupt=None):
         k = state["evals"]
         if corrupt is not None:
             corrupt(k, op, sorted(cur["grids"]))
+        last_set = int(op.grid.get_num_points())        # size of the grid the operation saw last: selects the branch
         rec = dict(scheme=sorted((tuple(int(x) for x in cg.levelvector), cg.coefficient) for cg in sa.scheme),
-                   grids=cur["grids"], dens=np.array(sa(pts), dtype=float).reshape(-1))
+                   grids=cur["grids"], dens=np.array(sa(pts), dtype=float).reshape(-1), last_set=last_set,
+                   levels=[dict(zip((float(x) for x in drive.dw_points(sa, d)), (int(l) for l in drive.dw_levels(sa, d))))
+                           for d in range(dim)])
+        own = np.zeros(len(pts))
         for lv, g in rec["grids"].items():
             g["alpha"] = np.array(op.surpluses[lv], dtype=float)
             g["N"] = len(g["alpha"])
+        for cg in sa.scheme:                            # this run's own surpluses through the reference hat basis
+            g = rec["grids"][tuple(int(x) for x in cg.levelvector)]
+            own += cg.coefficient * ref_interp(g["alpha"], g["stripes"], pts)
+        rec["dens_own"] = own
         records.append(rec)
         state["evals"] += 1
         return r
@@ -226,7 +253,7 @@ def max_sample_contribution(op, stripes):
 def compare_twin(out, sub, rec_off, rec_on, op_on):
     """All clauses after every evaluation.  Returns statistics for the non-triviality rule."""
     stats = dict(reuse_rhs=0, big=0, small=0, evals=min(len(rec_off), len(rec_on)), max_dR=0.0, max_dB=0.0, max_dS=0.0,
-                 max_dD=0.0, nontrivial=False)
+                 max_dD=0.0, max_dOwn=0.0, nontrivial=False, rotations=0, swaps=0, swaps_large=0, large_interp=0)
     if len(rec_off) != len(rec_on):
         out.bad(sub + "/scheme/number-of-evaluations-differs", "off %d on %d" % (len(rec_off), len(rec_on)))
     for k, (x, y) in enumerate(zip(rec_off, rec_on)):
@@ -240,6 +267,28 @@ def compare_twin(out, sub, rec_off, rec_on, op_on):
         clean = True
         copied_here = False
         sizes = [g["N"] for g in y["grids"].values()]
+        # every run's combined density must be the d-linear interpolant of that run's own surpluses on the current grids
+        for name, r in (("off", x), ("on", y)):
+            dO = float(np.max(np.abs(r["dens"] - r["dens_own"])))
+            stats["max_dOwn"] = max(stats["max_dOwn"], dO)
+            if not dO <= TOL_OWN * max(1.0, float(np.max(np.abs(r["dens_own"])))):
+                i = int(np.argmax(np.abs(r["dens"] - r["dens_own"])))
+                out.bad(sub + "/density/reuse-%s-differs-from-own-surpluses" % name,
+                        "%s: sa(points) %.6e, reference hat basis on the run's own surpluses and current grid points %.6e "
+                        "(point %d, max diff %.3e, last-set grid has %d points)" % (tag, r["dens"][i], r["dens_own"][i], i, dO,
+                                                                                   r["last_set"]))
+        if y["last_set"] >= THRESHOLD:
+            stats["large_interp"] += 1
+        if k >= 1:
+            p = rec_on[k - 1]
+            if any(p["levels"][d].get(c, l) != l for d in range(len(y["levels"])) for c, l in y["levels"][d].items()):
+                stats["rotations"] += 1
+            swapped = [lv for lv, g in y["grids"].items() if lv in p["grids"] and g["stripes"] != p["grids"][lv]["stripes"]
+                       and [len(c) for c in g["stripes"]] == [len(c) for c in p["grids"][lv]["stripes"]]]
+            if swapped:
+                stats["swaps"] += 1
+                if y["last_set"] >= THRESHOLD and p["last_set"] >= THRESHOLD:
+                    stats["swaps_large"] += 1
         for lv in sorted(x["grids"]):
             gx, gy = x["grids"][lv], y["grids"][lv]
             copied = gy["key"] is not None and gy["N"] >= THRESHOLD
@@ -302,6 +351,8 @@ def compare_twin(out, sub, rec_off, rec_on, op_on):
             stats["small"] += 1
         if k >= 1 and copied_here and min(sizes) < THRESHOLD:
             stats["nontrivial"] = True
+        if stats["swaps_large"]:
+            stats["nontrivial"] = True
         if out.violations:
             break
     return stats
@@ -322,11 +373,22 @@ def run_twin(case):
         out.cls("evaluation-with-grid>=200")
     if s["small"]:
         out.cls("evaluation-with-grid<200")
+    if s["rotations"]:
+        out.cls("rebalancing-rotation-happened")
+    if s["swaps"]:
+        out.cls("coordinate-swapped-at-unchanged-shape")
+    if s["swaps_large"]:
+        out.cls("swap-between-two-large-branch-interpolations")
+    if s["large_interp"]:
+        out.cls("interpolation-large-branch")
+    if case.get("directed"):
+        out.cls("directed-one-sided-refinement")
     out.cls("evals=%d" % min(s["evals"], 4), "data=%s" % case["data"], "classes=%s" % case["classes"],
             "masslumping=%s" % case["masslumping"], "rebalancing=%s" % case["rebalancing"], "d=%d" % case["dim"],
             "lmin,lmax=%d,%d" % (case["lmin"], case["lmax"]))
     out.info = dict(max_evaluations=s["evals"], rhs_copies=s["reuse_rhs"], max_rel_dR=s["max_dR"], max_dB_equal=s["max_dB"],
                     max_rel_dS_equal=s["max_dS"], max_dDensity_equal=s["max_dD"],
+                    max_dDensity_vs_own_surpluses=s["max_dOwn"], swaps=s["swaps"],
                     max_grid=max([g["N"] for r in rec_on for g in r["grids"].values()] + [0]))
     return out
 
@@ -335,27 +397,46 @@ LEVELS_2D = [(2, 4), (2, 5), (2, 5), (3, 4), (3, 4), (3, 5)]
 LEVELS_3D = [(2, 3), (2, 4)]
 
 
+NEAR_END = [0, 1, 2, 3, 60, 61, 62, 63]      # tape entries whose mode-5/6 target (t + 0.37)/64 lies next to a domain end
+
+
 def twin_strategy(tier):
     @st.composite
     def s(draw):
+        directed = draw(st.sampled_from([False, False, False, True, True]))
+        common = dict(M=draw(st.integers(20, 80)),
+                      data=draw(st.sampled_from(["uniform", "clustered", "snapped", "minmax", "minmax"])),
+                      classes=draw(st.booleans()), lambd=draw(st.sampled_from([0.01, 0.0, 1e-4, 0.1, 1.0])),
+                      safety=draw(st.sampled_from([0.1, 0.0, 0.2])), rng=draw(st.integers(0, 10 ** 6)))
+        if directed:
+            # one-sided refinement towards a point next to a domain end on grids beyond the threshold, default rebalancing:
+            # lopsided trees get re-levelled, component grids swap coordinates at unchanged shape between two interpolations
+            mode = draw(st.sampled_from([5, 5, 5, 6, 6, 6, 7]))
+            tape = [draw(st.sampled_from(NEAR_END)), draw(st.sampled_from(NEAR_END + [17, 32, 45]))] + \
+                draw(st.lists(st.integers(0, 63), min_size=1, max_size=6))
+            return dict(dim=2, lmin=3, lmax=5, directed=True, masslumping=draw(st.sampled_from([True, True, True, False])), rebalancing=True,
+                        margin=draw(st.sampled_from([0.9, 0.9, 0.5, 1.0])),
+                        maxsteps=draw(st.sampled_from([3, 4, 4, 5] if tier == "quick" else [4, 5, 6])),
+                        budget=800000 if tier == "quick" else 2500000, tape=tape, mode=mode, **common)
         dim = 2 if tier == "quick" else draw(st.sampled_from([2, 2, 3]))
         lmin, lmax = draw(st.sampled_from(LEVELS_2D if dim == 2 else LEVELS_3D))
         tape, mode = drive.st_tape(draw, maxlen=24)
-        return dict(dim=dim, lmin=lmin, lmax=lmax, M=draw(st.integers(20, 80)),
-                    data=draw(st.sampled_from(["uniform", "clustered", "snapped", "minmax", "minmax"])),
-                    classes=draw(st.booleans()), lambd=draw(st.sampled_from([0.01, 0.0, 1e-4, 0.1, 1.0])),
+        return dict(dim=dim, lmin=lmin, lmax=lmax, directed=False,
                     masslumping=draw(st.sampled_from([False, False, False, True])),
                     rebalancing=draw(st.booleans()), margin=draw(st.sampled_from([0.5, 0.9, 0.0, 1.0])),
-                    safety=draw(st.sampled_from([0.1, 0.0, 0.2])), maxsteps=draw(st.sampled_from([1, 2, 2, 3])),
-                    budget=450000 if tier == "quick" else 1500000,
-                    tape=tape, mode=mode, rng=draw(st.integers(0, 10 ** 6)))
+                    maxsteps=draw(st.sampled_from([1, 2, 2, 3])),
+                    budget=450000 if tier == "quick" else 1500000, tape=tape, mode=mode, **common)
     return s()
 
 
 def twin_fixed():
     # uniform refinement of the lmin=2,lmax=5 scheme: evaluation 1 holds grids of 189..225 points whose B is copied
     return [dict(dim=2, lmin=2, lmax=5, M=40, data="uniform", classes=False, lambd=0.01, masslumping=False, rebalancing=False,
-                 margin=0.5, safety=0.1, maxsteps=1, budget=450000, tape=[0], mode=4, rng=0)]
+                 margin=0.5, safety=0.1, maxsteps=1, budget=450000, tape=[0], mode=4, rng=0),
+            # one-sided refinement towards x = (0.006, 0.006) with default rebalancing on the lmin=3,lmax=5 scheme: component
+            # grids swap a coordinate at unchanged shape at evaluations 2 and 3, all interpolations take the >=200 branch
+            dict(dim=2, lmin=3, lmax=5, directed=True, M=60, data="uniform", classes=False, lambd=0.01, masslumping=True,
+                 rebalancing=True, margin=0.9, safety=0.0, maxsteps=4, budget=800000, tape=[0, 0, 57, 7], mode=5, rng=0)]
 
 
 # ------------------------------------------------------------------------------------------------------------
@@ -600,6 +681,6 @@ def selftest():
 
 SUBS = [
     Sub("twin", twin_strategy, run_twin, dict(quick=160, thorough=1600), case_timeout=300,
-        budget_s=dict(quick=60, thorough=560), fixed_cases=twin_fixed),
+        budget_s=dict(quick=50, thorough=560), fixed_cases=twin_fixed),
     Sub("paths", paths_strategy, run_paths, dict(quick=480, thorough=6000), budget_s=dict(quick=15, thorough=120)),
 ]
